@@ -18,10 +18,68 @@ def new_cs(mode):
     return cstruct(endian=mode["endian"], pointer=absyn.PTRTYPES[mode["ptr"]])
 
 
+class Defs(str):
+    """Definition text that is loaded in several load() calls with different align= settings: parts = [(text, align), ...]."""
+    parts = None
+
+
 def load(defs, mode, compiled):
     cs = new_cs(mode)
-    cs.load(defs, compiled=compiled, align=mode["align"])
+    if getattr(defs, "parts", None):
+        for text, align in defs.parts:
+            cs.load(text, compiled=compiled, align=align)
+    else:
+        cs.load(defs, compiled=compiled, align=mode["align"])
     return cs
+
+
+def mix_alignment(scn, rnd):
+    """load() takes align= per call: give every separately declared structure / union of the scenario its own setting (the top
+    one keeps the mode's), structures declared in place inherit the setting of the declaration they are part of.  Every
+    structure node of the abstract type records its setting (`align`), the definitions are loaded in groups."""
+    import copy
+
+    t = copy.deepcopy(scn["type"])
+    flags = {}
+
+    def walk(node, flag):
+        k = node["k"]
+        if k in ("arr",):
+            walk(node["elem"], flag)
+        elif k == "ptr":
+            if "selfname" not in node:
+                walk(node["target"], flag)
+        elif k in ("struct", "union"):
+            node["align"] = flag
+            for f in node["fields"]:
+                ft = f["type"]
+                base = ft
+                while base["k"] in ("arr", "ptr") and "selfname" not in base:
+                    base = base["elem"] if base["k"] == "arr" else base["target"]
+                if base["k"] in ("struct", "union") and not (f.get("anon") or f.get("inline")):
+                    fl = flags.setdefault(base["name"], rnd.random() < 0.5)
+                    walk(ft, fl)
+                else:
+                    walk(ft, flag)
+
+    flags[t["name"]] = scn["mode"]["align"]
+    walk(t, scn["mode"]["align"])
+    if len(set(flags.values())) < 2:
+        return None
+    r = absyn.Renderer()
+    r.ensure(t)
+    head = "".join(f"#define {k} {v}\n" for k, v in (scn["consts"] or {}).items())
+    parts = []
+    for name, text in r.defs:
+        fl = flags.get(name, parts[-1][1] if parts else scn["mode"]["align"])
+        if parts and parts[-1][1] == fl:
+            parts[-1][0] += "\n" + text
+        else:
+            parts.append([text, fl])
+    parts[0][0] = head + parts[0][0]
+    defs = Defs("\n".join(f"/* load(align={a}) */ {tx}" for tx, a in parts))
+    defs.parts = [(tx, a) for tx, a in parts]
+    return dict(scn, type=t, defs=defs)
 
 
 def classify(e):
@@ -113,7 +171,10 @@ def gen_scenario(rnd, cfg=None, mode=None, top_union=0.12):
         t = g.struct(union=(rnd.random() < top_union and g.cfg["union"]))
         if not absyn.has_dup_names(t):
             break
-    return {"type": t, "mode": mode, "consts": dict(g.consts), "defs": absyn.render(t, g.consts)}
+    scn = {"type": t, "mode": mode, "consts": dict(g.consts), "defs": absyn.render(t, g.consts)}
+    if g.cfg.get("mixalign", True) and rnd.random() < 0.12:
+        return mix_alignment(scn, rnd) or scn
+    return scn
 
 
 def start_for(rnd, scn):
